@@ -10,7 +10,7 @@ from typing import Any, get_args
 from typing import Generic
 from typing import NamedTuple
 
-from geneticengine.grammar.decorators import get_gengy
+from geneticengine.grammar.decorators import declared_weight, get_gengy
 from geneticengine.grammar.utils import is_metahandler
 from geneticengine.grammar.utils import all_init_arguments_typed, is_union
 from geneticengine.grammar.utils import get_arguments
@@ -339,6 +339,11 @@ class Grammar:
 
     def update_weights(self, learning_rate, extra_weights):
         weights = self.get_weights()
+        if learning_rate == 0:
+            # normalise only: start from the declared weights, not from what an earlier extraction
+            # (possibly of another grammar that shares these classes) left on the classes
+            weights = {prod: declared_weight(prod) for prod in weights}
+        declared = dict(weights)
         for rule in self.alternatives:
             prods = self.alternatives[rule]
             total_weights = 0
@@ -357,7 +362,9 @@ class Grammar:
         starting_symbol = self.starting_symbol
         get_gengy(starting_symbol)["weight"] = weights[starting_symbol]
         for node in weights:
-            get_gengy(node)["weight"] = weights[node]
+            gengy = get_gengy(node)
+            gengy["declared_weight"] = declared[node] if learning_rate == 0 else weights[node]
+            gengy["weight"] = gengy["normalised_weight"] = weights[node]
         nodes = list(self.considered_subtypes)
         self.__init__(starting_symbol, nodes, self.expansion_depthing)
         self.register_type(starting_symbol)
